@@ -461,6 +461,11 @@ def gen_foreign(rng, pool=None, shuffle=True, blanks=True, crlf=None,
             style = rng.below(5) if json_styles else 3
             t = _json_style(rng, md, style)
 
+            if json_styles and rng.chance(0.06):
+                # insignificant whitespace around the document
+                t = rng.choice(['\n', '  ', '\n  ', '\t', '\n\n']) + t + \
+                    rng.choice(['', '  ', '\n'])
+
             t0 = t
 
             if kind == 'dos':
